@@ -70,9 +70,30 @@ def cropShape (recon intended : List Nat) : Except String (List Nat) :=
   if recon = intended then .ok recon
   else (recon.zip intended).mapM fun (r, n) => cropLen r n
 
-/-- `adjoint`: `scale * self.inverse` with `scale = 1/cell_volume` for the forward transform
-and `cell_volume` for the inverse transform. -/
-def adjointScale {K : Type} [Div K] [OfNat K 1] (forward : Bool) (cv : K) : K :=
-  if forward then 1 / cv else cv
+/-- C-order multi-index of a flat index. -/
+def unravelIndex (shape : List Nat) (flat : Nat) : List Nat :=
+  (shape.foldr (fun n (acc : List Nat × Nat) => ((acc.2 % n) :: acc.1, acc.2 / n)) ([], flat)).1
+
+/-- `_inner_product_weights(space)` (wavelet.py): the pointwise weight `w` with
+`space.inner(x, y) = Σ w·x·ȳ`: the weighting constant, times — for grid points on the
+boundary (`not is_uniformly_weighted`) — the fraction `frac_l` at index 0 and `frac_r` at index
+`n-1` of every axis (both on a one-point axis).  For the default `uniform_discr` the constant is
+the cell volume and all fractions are 1. -/
+def innerWeight {K : Type} [Mul K] [OfNat K 1] (const : K) (fracs : List (K × K))
+    (shape idx : List Nat) : K :=
+  (fracs.zip (shape.zip idx)).foldl
+    (fun acc (t : (K × K) × Nat × Nat) =>
+      (acc * (if t.2.2 = 0 then t.1.1 else 1)) * (if t.2.2 + 1 = t.2.1 then t.1.2 else 1)) const
+
+/-- `WaveletTransform.adjoint` applied to coefficients `c`: the inverse (`inv = W⁻¹ c`) divided
+pointwise by the weights (`(1/w₀) * inverse` when all weights are equal, else
+`MultiplyOperator(1/w) ∘ inverse`). -/
+def adjointForward {K : Type} [Mul K] [Div K] [OfNat K 1] (w inv : Nat → K) (i : Nat) : K :=
+  (1 / w i) * inv i
+
+/-- `WaveletTransformInverse.adjoint` applied to an image `x`: the forward transform `W` of
+the pointwise weighted image (`w₀ * W` resp. `W ∘ MultiplyOperator(w)`). -/
+def adjointInverse {K : Type} [Mul K] (W : (Nat → K) → Nat → K) (w x : Nat → K) : Nat → K :=
+  W (fun i => w i * x i)
 
 end OdlModel.Wavelet
